@@ -11,6 +11,9 @@ from .vm import Path
 
 def case_to_task(c, **extra):
     d = dict(src=c.src, word=c.word, stack=c.stack, unchecked=c.unchecked, arrays=c.arrays, name=c.name, lint=c.lint)
+    if 'random' in c.name:
+        import os
+        d['limit'] = 45 if os.environ.get('VERIF_TIER', 'quick') != 'thorough' else 300      # wall budget of one sampled program
     d.update(extra)
     return d
 
